@@ -239,7 +239,10 @@ def one(job):
         if k == 2:
             sched = "".join(str(i) for i in range(n)) * (total // n + 1)        # strict round robin
         # the C drivers also run every schedule with overlapping lifetimes (mode e: an instance is destroyed when it is done)
-        rc, out, err = run([exe, "e" if (be != 'cxx' and k == 1) else "s", sched] + files, timeout=30, env=tenv)
+        # the round-robin run gets its heap blocks pre-filled with a byte pattern (glibc MALLOC_PERTURB_): a scanner object
+        # must not depend on what the memory held before (for instance the state of an instance destroyed earlier)
+        penv = dict(tenv, MALLOC_PERTURB_="90") if k == 2 else tenv
+        rc, out, err = run([exe, "e" if (be != 'cxx' and k == 1) else "s", sched] + files, timeout=30, env=penv)
         nsched += 1
         got = parse(out)
         for i in range(n):
